@@ -2,7 +2,7 @@
 C07 — future_desync/after futures deliver their operation's result exactly once.
 -/
 import DesyncModel.Spec
-import DesyncModel.Tables
+import DesyncModel.Tables.Claim
 import DesyncModel.Lemmas
 import DesyncModel.Setters
 
